@@ -94,6 +94,8 @@ Record step (T : N -> bytes -> Prop) (b : N) (f f' : fs) : Prop := {
   st_enter : forall i, reach f' i -> reach f i \/ b <= i;
   st_tag : forall i, i < f_next f -> itag (get f' i) = itag (get f i);
   st_dent : forall j n, j < f_next f -> ~ T j n -> blookup n (ents f' j) = blookup n (ents f j);
+  (* inodes made by the step have no entries (other than what T allows) *)
+  st_fresh : forall j n, f_next f <= j -> ~ T j n -> blookup n (ents f' j) = None;
   st_D : dir_kept f f';
   st_wf : wf f'
 }.
@@ -121,9 +123,14 @@ Proof.
   - destruct H3 as (?&?&?&?), G3 as (?&?&?&?). congruence.
 Qed.
 
+Lemma ents_beyond f j : wf f -> f_next f <= j -> ents f j = [].
+Proof. intros W H. unfold ents, dir_of. rewrite (wf_alloc f W j H). reflexivity. Qed.
+
 Lemma step_refl T b f : wf f -> b <= f_next f -> step T b f f.
 Proof.
-  intros W Hb. constructor; auto; try lia. apply dir_kept_refl; auto.
+  intros W Hb. constructor; auto; try lia.
+  - intros j n Hj _. rewrite (ents_beyond f j W Hj). reflexivity.
+  - apply dir_kept_refl; auto.
 Qed.
 
 Lemma step_trans T b f1 f2 f3 : step T b f1 f2 -> step T b f2 f3 -> step T b f1 f3.
@@ -146,13 +153,18 @@ Proof.
     pose proof (st_next _ _ _ _ A). lia.
   - intros j n Hl HT. rewrite (st_dent _ _ _ _ B), (st_dent _ _ _ _ A); auto.
     pose proof (st_next _ _ _ _ A). lia.
+  - intros j n Hl HT. destruct (N.lt_ge_cases j (f_next f2)) as [Hlt|Hge].
+    + rewrite (st_dent _ _ _ _ B j n Hlt HT). apply (st_fresh _ _ _ _ A j n Hl HT).
+    + apply (st_fresh _ _ _ _ B j n Hge HT).
   - eapply dir_kept_trans; [apply (st_D _ _ _ _ A)|apply (st_D _ _ _ _ B)].
   - apply (st_wf _ _ _ _ B).
 Qed.
 
 Lemma step_weaken (T T' : N -> bytes -> Prop) b f f' : (forall d n, T d n -> T' d n) -> step T b f f' -> step T' b f f'.
 Proof.
-  intros H A. constructor; try apply A. intros j n Hl HT. apply (st_dent _ _ _ _ A); auto.
+  intros H A. constructor; try apply A.
+  - intros j n Hl HT. apply (st_dent _ _ _ _ A); auto.
+  - intros j n Hl HT. apply (st_fresh _ _ _ _ A); auto.
 Qed.
 
 (* a later operation: the boundary moves up to the current allocation counter *)
@@ -254,5 +266,24 @@ Proof.
         unfold is_dir, ents in *. destruct (dir_of f j) as [[p es]|]; auto. discriminate. }
   apply (G cs [] D); auto.
 Qed.
+
+
+(* ---------------- steps that touch no directory entry at all ---------------- *)
+Definition TNone : N -> bytes -> Prop := fun _ _ => False.
+
+Lemma avoids_none f : forall cs j, avoids TNone f j cs.
+Proof.
+  induction cs as [|c r IH]; intros j; simpl; auto. split; [unfold TNone; tauto|].
+  destruct (blookup c (ents f j)); auto.
+Qed.
+
+Lemma quiet_safe b f f' cs : wf f -> step TNone b f f' -> safe f D cs -> safe f' D cs.
+Proof. intros W S H. apply (safe_step TNone b f f' W S cs D (reach_refl f) (avoids_none f cs D) H). Qed.
+
+Lemma quiet_rwalk b f f' cs : wf f -> step TNone b f f' -> rwalk f' D cs = rwalk f D cs.
+Proof. intros W S. apply (rwalk_step TNone b f f' W S cs D (reach_refl f) (avoids_none f cs D)). Qed.
+
+Lemma quiet_blookup b f f' j n : step TNone b f f' -> j < f_next f -> blookup n (ents f' j) = blookup n (ents f j).
+Proof. intros S Hj. apply (st_dent _ _ _ _ S j n Hj). unfold TNone. tauto. Qed.
 
 End Inside.
